@@ -26,7 +26,7 @@ RULE = ("E = create(d) for generated d (same generator as C02); variants: E as c
 MIN_DISTINCT = {"quick": 500, "thorough": 5000}
 ASSUMPTIONS = ["reference encoder as in C02 (used in the tool's CWT-payload form, F7b is C02's finding)",
                "PyYAML / json are trusted for reading the files written by parse"]
-N = {"quick": 8000, "thorough": 300000}
+N = {"quick": 6200, "thorough": 300000}
 CAP = {"quick": 34, "thorough": 800}
 KNOWN_F6NIL = "ciphertext-f6-read-as-nil"
 
